@@ -82,13 +82,17 @@ fn opt_bounds(r: &Option<Range>) -> Result<Bs, String> {
 }
 
 pub fn judge_tree(ctx: &mut Ctx, e: &Expr, leaves: &[Operand]) {
+    judge_tree_budget(ctx, e, leaves, 400)
+}
+
+pub fn judge_tree_budget(ctx: &mut Ctx, e: &Expr, leaves: &[Operand], budget: usize) {
     let text = e.text(leaves);
     ctx.begin(|| format!("C15 {}", text));
     let w = json!({"tree": text});
     // results of set operations have up to |A|·|B| alternatives by definition; trees whose value
     // could exceed the harness budget are not evaluated (the harness, not the crate, would run
     // out of memory when it re-uses a 6 561-alternative intermediate as an operand)
-    if e.size_bound(leaves) > 400 {
+    if e.size_bound(leaves) > budget {
         ctx.skip("tree value may exceed 400 alternatives (harness budget)");
         return;
     }
@@ -377,6 +381,45 @@ pub fn run(ctx: &mut Ctx) {
                 }
                 judge_identities(ctx, &leaves[0], &leaves[1], &leaves[2]);
             }
+        }
+    }
+    // long alternative lists as leaves (17..300 alternatives in depth-2 trees, up to 3000 in
+    // single operations), evaluated on a 256 KiB stack
+    ctx.stratum("L-long-alternative-lists", false);
+    let nl = ctx.tier.n(40, 1_500);
+    for i in 0..nl {
+        if !ctx.take() {
+            continue;
+        }
+        let mut r = Rng::for_case(ctx.seed, "C15-L", i);
+        let a = match long_alt_operand_sized(&mut r, &tiv, 1) {
+            Some(a) => a,
+            None => continue,
+        };
+        let (b, c) = match (long_partner(&mut r, &a, &tiv), long_partner(&mut r, &a, &tiv)) {
+            (Some(b), Some(c)) => (b, c),
+            _ => continue,
+        };
+        let deep = a.b.0.len() <= 300 && b.b.0.len() * c.b.0.len() <= 64;
+        let leaves = vec![a, b, c];
+        let l = |i: usize| Box::new(Expr::Leaf(i));
+        let mut trees = vec![Expr::Minus(l(0), l(1)), Expr::Minus(l(1), l(0)), Expr::And(l(0), l(1)), Expr::And(l(1), l(0))];
+        if deep {
+            trees.extend([
+                Expr::Minus(l(0), Box::new(Expr::Minus(l(0), l(1)))),
+                Expr::And(Box::new(Expr::Minus(l(0), l(1))), l(1)),
+                Expr::Minus(Box::new(Expr::Minus(l(0), l(1))), l(2)),
+                Expr::Minus(l(2), Box::new(Expr::And(l(0), l(1)))),
+                Expr::And(Box::new(Expr::And(l(0), l(1))), l(2)),
+            ]);
+        }
+        let done = on_small_stack(|| {
+            for t in &trees {
+                judge_tree_budget(ctx, t, &leaves, 2_000_000);
+            }
+        });
+        if done.is_none() {
+            ctx.inconclusive("small-stack thread ended without a result");
         }
     }
     ctx.stratum("R-random-trees", false);
